@@ -203,7 +203,10 @@ class Exec(CallsMixin, Interp):
             raise Unsupported('del form (line %s)' % st.lineno)
 
     def s_Global(self, st):
-        raise Unsupported('global statement')
+        for n in st.names:
+            if n not in self.p.globals:
+                raise Unsupported('global %s is not declared as module state in the sidecar' % n)
+        self.global_names = getattr(self, 'global_names', set()) | set(st.names)
 
     def s_FunctionDef(self, st):
         raise Unsupported('nested function %s' % st.name)
@@ -215,7 +218,7 @@ class Exec(CallsMixin, Interp):
     def assign_to(self, t, v, node=None):
         if isinstance(t, ast.Name):
             dk = self.declared_local(t.id)
-            if t.id in self.p.globals and self.ghost_mode:
+            if t.id in self.p.globals and (self.ghost_mode or t.id in getattr(self, 'global_names', ())):
                 kind = self.w.ghost[t.id][0]
                 self.p.globals[t.id] = K.coerce(v, kind)
                 return
